@@ -110,12 +110,15 @@ type ScriptConn struct {
 	rferr   error
 	readN   int // number of Read calls
 	TotalIn int // bytes delivered
+	// BeforeFault is the number of bytes that had been delivered by Read calls
+	// strictly before the call that reported the armed fault.
+	BeforeFault int
 
-	wfault   *WriteFault
-	wops     int // write-side operations so far
-	wfired   bool
-	wferr    error
-	Wrote    []byte // all bytes accepted by Write
+	wfault     *WriteFault
+	wops       int // write-side operations so far
+	wfired     bool
+	wferr      error
+	Wrote      []byte // all bytes accepted by Write
 	AfterFault []byte // bytes offered to Write after the write fault fired
 
 	// OnWrite, if set, sees every accepted Write (used by handshake responders).
@@ -246,6 +249,7 @@ func (c *ScriptConn) Read(p []byte) (int, error) {
 		}
 		if limit == 0 {
 			c.rfired = true
+			c.BeforeFault = c.TotalIn
 			c.rferr = FaultErr(c.rfault.Kind)
 			c.log(Op{Kind: OpRead, Asked: len(p), Err: c.rferr})
 			return 0, c.rferr
@@ -279,6 +283,7 @@ func (c *ScriptConn) Read(p []byte) (int, error) {
 	var err error
 	if faultArmed && c.rfault.WithData && c.TotalIn == c.rfault.Offset {
 		c.rfired = true
+		c.BeforeFault = c.TotalIn - n
 		c.rferr = FaultErr(c.rfault.Kind)
 		err = c.rferr
 	}
@@ -346,9 +351,13 @@ func (c *ScriptConn) deadlineOp(kind OpKind, t time.Time, writeSide bool) error 
 	return err
 }
 
-func (c *ScriptConn) SetDeadline(t time.Time) error      { return c.deadlineOp(OpSetDeadline, t, true) }
-func (c *ScriptConn) SetReadDeadline(t time.Time) error  { return c.deadlineOp(OpSetReadDeadline, t, false) }
-func (c *ScriptConn) SetWriteDeadline(t time.Time) error { return c.deadlineOp(OpSetWriteDeadline, t, true) }
+func (c *ScriptConn) SetDeadline(t time.Time) error { return c.deadlineOp(OpSetDeadline, t, true) }
+func (c *ScriptConn) SetReadDeadline(t time.Time) error {
+	return c.deadlineOp(OpSetReadDeadline, t, false)
+}
+func (c *ScriptConn) SetWriteDeadline(t time.Time) error {
+	return c.deadlineOp(OpSetWriteDeadline, t, true)
+}
 
 func (c *ScriptConn) Close() error {
 	c.mu.Lock()
